@@ -39,10 +39,26 @@ func (w *W) U64(v uint64) { w.B = binary.LittleEndian.AppendUint64(w.B, v) }
 func (w *W) I32(v int32)  { w.U32(uint32(v)) }
 func (w *W) I64(v int64)  { w.U64(uint64(v)) }
 
-// R is a decoder over a byte slice.
+// Field is one primitive value located by a traced parse.
+type Field struct {
+	Off, Len int
+	Kind     string // uvarint | strlen | u64 | u32 | u16 | byte | raw
+}
+
+// R is a decoder over a byte slice. When Trace is set every primitive read
+// is recorded with its extent, which is how the fault injector finds the
+// count / length / offset / key / meta / flag fields of a valid encoding.
 type R struct {
-	B   []byte
-	Pos int
+	B        []byte
+	Pos      int
+	Trace    *[]Field
+	inVarint bool
+}
+
+func (r *R) note(off int, kind string) {
+	if r.Trace != nil {
+		*r.Trace = append(*r.Trace, Field{Off: off, Len: r.Pos - off, Kind: kind})
+	}
 }
 
 func (r *R) Left() int { return len(r.B) - r.Pos }
@@ -53,6 +69,9 @@ func (r *R) Byte() (byte, error) {
 	}
 	b := r.B[r.Pos]
 	r.Pos++
+	if !r.inVarint {
+		r.note(r.Pos-1, "byte")
+	}
 	return b, nil
 }
 
@@ -69,6 +88,17 @@ func (r *R) Raw(n int) ([]byte, error) {
 }
 
 func (r *R) UVarint() (uint64, error) {
+	start := r.Pos
+	r.inVarint = true
+	v, err := r.uvarint()
+	r.inVarint = false
+	if err == nil {
+		r.note(start, "uvarint")
+	}
+	return v, err
+}
+
+func (r *R) uvarint() (uint64, error) {
 	var x uint64
 	var s uint
 	for i := 0; ; i++ {
@@ -131,6 +161,7 @@ func (r *R) U32() (uint32, error) {
 	if err != nil {
 		return 0, err
 	}
+	r.note(r.Pos-4, "u32")
 	return binary.LittleEndian.Uint32(b), nil
 }
 func (r *R) U64() (uint64, error) {
@@ -138,6 +169,7 @@ func (r *R) U64() (uint64, error) {
 	if err != nil {
 		return 0, err
 	}
+	r.note(r.Pos-8, "u64")
 	return binary.LittleEndian.Uint64(b), nil
 }
 func (r *R) I32() (int32, error) { v, err := r.U32(); return int32(v), err }
